@@ -122,7 +122,7 @@ def seed_files(ctx, n_edits):
     for s in seeds:
         out.append(("seed/%s" % s["name"], s["text"]))
         n = len(s["toks"])
-        for j in range(n_edits):
+        for j in ([ctx.seed % 24] if n_edits == 1 else range(n_edits)):       # quick: one of the 24 edits, by seed
             x = (j * 2654435761 + len(s["name"]) * 97 + n) & 0xffffffff
             kind = ["del", "rep", "ins", "dup", "swap"][x % 5]
             i = (x >> 3) % n + 1
